@@ -18,7 +18,8 @@ parsed address is the canonical `A`.
 `genesis <min> <max> <levels> <name/addr/restricted,…>` starts (or continues) a history with the real
 `GenesisState.Validate` + `Keeper.InitGenesis` on a generated genesis state (names and addresses in
 either spelling, children before parents, orphans, duplicates, malformed entries);
-`rlookup <addr>` is the `ReverseLookup` query asked with the address spelled as given.
+`rlookup <addr>` is the `ReverseLookup` query asked with the address spelled as given;
+`export` is `Keeper.ExportGenesis` of the current state (all bindings, sorted).
 -/
 import PvModel.NameSpec
 import PvModel.Sha256
@@ -257,7 +258,12 @@ def checkResolve (pre : Dump) (n : Bytes) (impl : List String) : String :=
   let t := normalizeName n
   match impl with
   | ["ok", a, r, stored] =>
-    if decName stored ≠ t then "fail:key_collision"
+    if decName stored ≠ t then
+      -- the known way two names share a record: different segmentations of ONE byte string (the
+      -- segments are hashed without separator).  Any other pair of distinct names that resolves to
+      -- one record is a different defect.
+      if samePreimage (decName stored) t then "fail:key_collision"
+      else "fail:distinct_names_resolve_to_same_record"
     else if findByName pre.recs t == some ⟨t, decAddr a, parseBool r⟩ then "ok"
     else "fail:lookups_disagree"
   | ["err:notfound"] => if (findByName pre.recs t).isSome then "fail:lookups_disagree" else "ok"
@@ -272,6 +278,16 @@ def checkRLookup (pre : Dump) (a : Addr) (impl : List String) : String :=
     if sortStrs (splitList l ";") == want then "ok"
     else if a ≠ canonD a then "fail:reverse_lookup_spelling" else "fail:reverse_lookup_mismatch"
   | _ => if knownAddrs.contains (canonD a) then "fail:reverse_lookup_mismatch" else "ok"
+
+/-- verdict for `export`: `Keeper.ExportGenesis` is a third listing of the name records; it must
+list exactly the records of the implementation's last dump (name, address, restriction of each). -/
+def checkExport (pre : Dump) (impl : List String) : String :=
+  match impl with
+  | ["ok", l] =>
+    match (splitList l ",").mapM parseRec with
+    | some rs => if recsKey rs == recsKey pre.recs then "ok" else "fail:export_differs_from_records"
+    | none => "fail:unparsed"
+  | _ => "fail:export_failed"
 
 structure DSt where
   minSeg : Nat := 2
@@ -312,6 +328,9 @@ def stepName (d : DSt) (op : String) (impl : Option String) : DSt × String × S
       let accepted := match impl with | some i => i = "ok" | none => out = "ok"
       ({ d' with last := some (.genesis bs accepted) }, out, if impl.isSome then "ok" else "-")
     | _, _, _, _ => (d, "bad-op", "-")
+  | ["export"] =>
+    let out := "ok " ++ joinOr (sortStrs ((exportGenesis d.st).map showRec)) ","
+    (d, out, match impl with | some i => checkExport d.view (words i) | none => "-")
   | ["rlookup", a] =>
     let a := decAddr a
     let out := match reverseLookup cfg d.st a with
@@ -406,7 +425,9 @@ def checkKey (ws : List String) (impl : String) : String :=
       let (n1, n2) := (decName n1, decName n2)
       if isNormalizedB cfg n1 && isNormalizedB cfg n2 && n1 != n2 then
         if impl = "ok same" then
-          if profile n1 = profile n2 then "fail:key_injective_same_profile" else "fail:key_collision"
+          if profile n1 = profile n2 then "fail:key_injective_same_profile"
+          else if samePreimage n1 n2 then "fail:key_collision"
+          else "fail:distinct_names_share_key"
         else if impl = "ok diff" then "ok" else "fail:valid_name_has_no_key"
       else "-"
     | _, _, _ => "-"
